@@ -138,6 +138,9 @@ type c18Plan struct {
 	Regenerate  bool            `json:"regenerate"`   // regenerate_sequences
 	Racing      [][]c18Op       `json:"racing"`       // tasks on a second node (already on F2) while the resync runs
 	StopRestart bool            `json:"stop_restart"` // stop the resync shortly after it started and start it again
+	// FailQuery: one view query of the resyncing node fails while the resync runs (the run may end in error); the
+	// operator then starts the resync again until it completes
+	FailQuery bool `json:"fail_query,omitempty"`
 	Faulty      bool            `json:"faulty"`
 }
 
@@ -258,6 +261,13 @@ func c18Generate(seed uint64, tier string, index int) json.RawMessage {
 		p.Cfg.MaxFaults = r.Range(1, 5)
 		p.Cfg.FaultPermille = map[string]int{simstore.AltCasMiss: 100, simstore.AltFeedRedeliver: 60, simstore.AltFeedDedup: 60}
 	}
+	if index%8 == 6 {
+		// directed: a query of the resyncing node fails once while the resync runs (listing the principals to
+		// invalidate is one of them); the run may end in error and is started again
+		p.FailQuery, p.Faulty, p.StopRestart, p.Racing = true, true, false, nil
+		p.Cfg.MaxFaults = 1
+		p.Cfg.FaultPermille = map[string]int{simstore.AltErr: []int{150, 400, 1000}[r.Intn(3)]}
+	}
 	return mustJSON(p)
 }
 
@@ -329,6 +339,9 @@ func c18Run(env *verifsim.Env, raw json.RawMessage) *verifsim.Violation {
 		panic(err)
 	}
 	defer w.close()
+	if p.FailQuery {
+		s.SetFaultsEnabled(false) // the one fault of these runs belongs to the resync
+	}
 	o1 := p.Node
 	o1.SyncFn = p.F1.source()
 	o2 := p.Node
@@ -517,6 +530,11 @@ func c18Run(env *verifsim.Env, raw json.RawMessage) *verifsim.Violation {
 		return st, fmt.Errorf("resync %s did not finish within 100 simulated seconds", label)
 	}
 
+	if p.FailQuery {
+		nr.node.QueryFaults = true
+		nr.node.NoFaultKeys = func(key string) bool { return !strings.HasPrefix(key, "query:") }
+		s.SetFaultsEnabled(true)
+	}
 	if err := startResync(nr, "first", p.Regenerate); err != nil {
 		return verifsim.Vf("C18", "resync-failed", "starting the resync failed: %v", err)
 	}
@@ -548,12 +566,33 @@ func c18Run(env *verifsim.Env, raw json.RawMessage) *verifsim.Violation {
 			}
 		}
 	}
+	if p.FailQuery {
+		// the resync works while this task waits (under the normal scheduler, where the fault may fire)
+		s.Spawn("operator-waits", "n1b", func(t *verifsim.Task) {
+			rec := t.Begin("idle", 4000)
+			time.Sleep(4 * time.Second)
+			rec.End(nil, nil)
+		})
+	}
 	if err := s.DriveAll(); err != nil {
 		return infraOrBudget(err)
 	}
 	st, err := waitResync(nr, "first")
 	if err != nil {
 		return infraOrBudget(err)
+	}
+	if p.FailQuery {
+		s.SetFaultsEnabled(false)
+		for attempt := 0; attempt < 3 && st.State == string(BackgroundProcessStateError); attempt++ {
+			// the operator starts the failed resync again
+			s.Probe("c18.failed-resync-started-again")
+			if err := startResync(nr, fmt.Sprintf("retry%d", attempt), p.Regenerate); err != nil {
+				return verifsim.Vf("C18", "resync-failed", "starting the resync again after a failed run failed: %v", err)
+			}
+			if st, err = waitResync(nr, fmt.Sprintf("retry%d", attempt)); err != nil {
+				return infraOrBudget(err)
+			}
+		}
 	}
 	if st.State != string(BackgroundProcessStateCompleted) {
 		return verifsim.Vf("C18", "resync-failed", "the resync ended in state %q (error %q), not completed", st.State, st.LastError)
